@@ -12,7 +12,7 @@ from `http.Request.RemoteAddr`, following the Go standard library functions it c
 
 Addresses are natural numbers below `2^128` (the 16-byte form read big-endian).  Text is `List Char` internally.
 
-The entry parser follows the code **with `fixes/C09-1.patch` applied**: an entry without `/` that is not an IP address
+The entry parser follows the code **with `fixes/C09-1.patch`** (in /repo as commit 7f0f8a0): an entry without `/` that is not an IP address
 is skipped (the unpatched code keeps it as `simpleIP(nil)`, which `Equal`s the `nil` of an unparsable peer address;
 see `parseEntryUnpatched` and `Props/C09.lean`, `c09_unpatched_trusts_unparsable_peer`).
 -/
